@@ -237,8 +237,12 @@ def dirUnlink : Nat → Bool → Fs → Bytes → Fs × Bool
           | (fs'', false) => (fs'', false)
           | (fs'', true) => let (fs3, r) := sysRmdir fs'' dir; (fs3, isOk r)
 
+/-- length of the longest stored path -/
+def maxDepth (fs : Fs) : Nat := fs.ents.foldl (fun m x => max m x.1.length) 0
+
+/-- the recursion of Directory::unlink is as deep as the tree; the model gives it the longest stored path + 2 -/
 def dirUnlinkTop (fs : Fs) (dir : Bytes) (recursive : Bool) : Fs × Bool :=
-  dirUnlink (fs.ents.length + 2) recursive fs dir
+  dirUnlink (maxDepth fs + 2) recursive fs dir
 
 /-- Directory::open(dir, "", dirsOnly = false) + read until the end: (name, isDir) in readdir order.
     A symbolic link is reported as directory when `stat` says so. -/
